@@ -79,6 +79,13 @@ pub fn gen_attrs(rng: &mut Rng, ns: bool) -> (String, Vec<(String, String)>) {
             };
             let v = if rng.chance(1, 5) { "" } else { *rng.pick(NS_URIS) };
             (k, v.to_string())
+        } else if ns && rng.chance(1, 6) {
+            // the text "xmlns" where it is NOT a declaration: inside a value, or as the local part
+            // of a prefixed attribute name
+            (
+                rng.pick(&["k", "href", "p:xmlns", "q:xmlns", "note", "axmlns", "xmlnsx"]).to_string(),
+                rng.pick(&["see the xmlns spec", "http://www.w3.org/2000/xmlns/", "xmlns:p='u2'", "xmlns", "a xmlns=b", "urn:wrong"]).to_string(),
+            )
         } else if ns && rng.chance(1, 4) {
             // xsi:nil look-alikes: whether they count depends on what the prefix resolves to
             (rng.pick(&["p:nil", "q:nil", "r:nil", "nil", "p:nill"]).to_string(), rng.pick(&["true", "1", "false", "0", "x", " true", ""]).to_string())
